@@ -132,6 +132,10 @@ def gen_cases(rng, n, part, nparts):
         if len(b) <= 1024:
             for code in ATTR_FLAGS:
                 det.append((2, update_body(base_attrs + wrap_attr(code, b), b'\x18\xc0\x00\x02')))
+    # 2a. message types the agent does not know, with a body
+    for t_ in (0, 6, 7, 9, 127, 129, 200, 255):
+        for b_ in (b'', b'\x00\x01\x00\x01', bytes(range(40))):
+            det.append((t_, b_))
     # 2b. OPENs a peer could send again, with other capability sets (a second OPEN must not re-negotiate anything)
     for b in open_variants():
         det.append((1, b))
@@ -156,7 +160,7 @@ def gen_cases(rng, n, part, nparts):
             a, b = rng.choice(items), rng.choice(items)
             yield 2, update_body(base_attrs + wrap_attr(rng.choice([14, 15, 29, 40, 23, 16]), mutate.splice(a, b, rng)[:3000]))
         elif r < 0.9:
-            yield rng.choice([1, 3, 5, 128, 4]), mutate.random_mutation(rng.choice(items), rng)[:1000]
+            yield rng.choice([1, 3, 5, 128, 4, rng.randrange(256)]), mutate.random_mutation(rng.choice(items), rng)[:1000]
         else:
             t, b = rng.choice(msgs)
             if len(b) > 2:
